@@ -249,6 +249,12 @@ def _only_dead_removed(before, after, touched):
 
     if untouched_multiset(m, touched) == untouched_multiset(after, touched):
         return True  # apply_to_model removes dead nodes but keeps functions that became unused
+    # dead-code removal inside rewrite() may remove only SOME of the dead nodes (those that were dead before the rule fired, not the
+    # ones that died with it): every untouched node that disappeared must have been dead in the input model, nothing may be gained
+    ub, ua, ud = untouched_multiset(before, touched), untouched_multiset(after, touched), untouched_multiset(m, touched)
+    lost, gained, dead = ub - ua, ua - ub, ub - ud
+    if not gained and not (lost - dead):
+        return True
     mi = ir.serde.deserialize_model(m)
     import onnx_ir.passes.common as cp
 
